@@ -16,7 +16,7 @@ namespace Pycdlib.Atomic
 open Pycdlib
 
 inductive Cause where
-  | missingParent | parentNotDir | illegalName | duplicate | noNamespace | notFound | notDir | notEmpty | isRoot
+  | missingParent | parentNotDir | illegalName | duplicate | noNamespace | notFound | notDir | notEmpty | isRoot | tooDeep
   deriving DecidableEq, Repr
 
 structure Part (σ : Type) where
@@ -83,12 +83,19 @@ def hasPath (ns : Ns) (p : Path) : Bool := ns.any fun e => e.path = p
 def isDirAt (ns : Ns) (p : Path) : Bool := p = [] || ns.any fun e => e.path = p && e.isDir
 def hasChild (ns : Ns) (p : Path) : Bool := ns.any fun e => e.path.dropLast = p && e.path ≠ []
 
-/-- precondition of adding `p` to one namespace; `legal isDir name` is that namespace's identifier rule -/
-def checkAdd (legal : Bool → Name → Bool) (d : Bool) (p : Path) (ns : Ns) : Option Cause :=
+def tooDeep (maxDepth : Option Nat) (p : Path) : Bool :=
+  match maxDepth with
+  | some m => decide (p.length > m)
+  | none => false
+
+/-- precondition of adding `p` to one namespace; `legal isDir name` is that namespace's identifier rule, `maxDepth` its
+limit on the number of path components (ECMA-119 6.8.2.1: eight levels including the root) -/
+def checkAdd (legal : Bool → Name → Bool) (maxDepth : Option Nat) (d : Bool) (p : Path) (ns : Ns) : Option Cause :=
   match p.getLast? with
   | none => some .isRoot
   | some name =>
-    if !isDirAt ns p.dropLast then
+    if tooDeep maxDepth p then some .tooDeep
+    else if !isDirAt ns p.dropLast then
       (if hasPath ns p.dropLast then some .parentNotDir else some .missingParent)
     else if !legal d name then some .illegalName
     else if hasPath ns p then some .duplicate
@@ -113,6 +120,7 @@ structure Legal where
   iso : Bool → Name → Bool
   joliet : Bool → Name → Bool
   udf : Bool → Name → Bool
+  isoMaxDepth : Option Nat := none
 
 def Legal.get (L : Legal) : Which → Bool → Name → Bool
   | .iso => L.iso | .joliet => L.joliet | .udf => L.udf
@@ -127,7 +135,7 @@ structure Op where
 
 def partFor (L : Legal) (k : Kind) (w : Which) (p : Path) : Part St :=
   match k with
-  | .add d => onNs w (checkAdd (L.get w) d p) (fun ns => ⟨p, d⟩ :: ns)
+  | .add d => onNs w (checkAdd (L.get w) (if w = .iso then L.isoMaxDepth else none) d p) (fun ns => ⟨p, d⟩ :: ns)
   | .rmdir => onNs w (checkRmdir p) (fun ns => ns.filter fun e => e.path ≠ p)
 
 /-- the parts of an edit, in the order the library handles the namespaces -/
@@ -166,6 +174,8 @@ def udfLegal (_d : Bool) (name : Name) : Bool :=
   (if name.all (· < 256) then name.length else (utf16be name).length) ≤ 254
 
 def libLegal (lvl : Nat) (rr xa : Bool) : Legal :=
-  { iso := isoLegal lvl rr xa, joliet := jolietLegal, udf := udfLegal }
+  { iso := isoLegal lvl rr xa, joliet := jolietLegal, udf := udfLegal,
+    -- pycdlib.py `_check_path_depth`: without Rock Ridge and below level 4 at most 7 components
+    isoMaxDepth := if !rr && lvl < 4 then some 7 else none }
 
 end Pycdlib.Atomic
